@@ -480,27 +480,44 @@ Fixpoint column (a : nat) (pts : list (list spec_float)) : option (list spec_flo
   | [] => Some []
   | p :: t => match nth_opt p a, column a t with Some c, Some r => Some (c :: r) | _, _ => None end
   end.
-Fixpoint bbox32 (D : nat) (a : nat) (pts : list (list spec_float)) : option (box spec_float) :=
+(* The f64 -> f32 conversion of a coordinate or of a box bound.  [clamp = true]:
+   `(x as f32).clamp(f32::MIN, f32::MAX)` (finite f64 values beyond the binary32
+   range do not become infinities; NaN stays NaN); [false]: plain `x as f32`
+   (the code before the clamp fix, kept for the regression witnesses).
+   f32::clamp: `if x < min { x = min } if x > max { x = max } x`. *)
+Definition f32_max_value : spec_float := f32_of_bits 2139095039%N.
+Definition f32_min_value : spec_float := f32_of_bits 4286578687%N.
+Definition clamp32 (x : spec_float) : spec_float :=
+  let x1 := if flt x f32_min_value then f32_min_value else x in
+  if flt f32_max_value x1 then f32_max_value else x1.
+Definition cast32 (clamp : bool) (x : spec_float) : spec_float :=
+  if clamp then clamp32 (f64_to_f32 x) else f64_to_f32 x.
+
+(* the box stays in f64 in the code and each bound is cast on use; child
+   bounds are `split_pos as f64` of a finite or already clamped f32, on which
+   the cast (clamped or not) is the identity, so only the root bounds are cast here *)
+Fixpoint bbox32 (clamp : bool) (D : nat) (a : nat) (pts : list (list spec_float)) : option (box spec_float) :=
   match D with
   | O => Some []
   | S D' =>
-    match column a pts, bbox32 D' (S a) pts with
+    match column a pts, bbox32 clamp D' (S a) pts with
     | Some c, Some r =>
       let '(mn, mx) := bbox_axis f64_max_value f64_min_value c in
-      Some ((f64_to_f32 mn, f64_to_f32 mx) :: r)
+      Some ((cast32 clamp mn, cast32 clamp mx) :: r)
     | _, _ => None
     end
   end.
 
-Fixpoint mk_items (i : N) (pts : list (list spec_float)) (ws : list Z) : list item32 :=
+Fixpoint mk_items (clamp : bool) (i : N) (pts : list (list spec_float)) (ws : list Z) : list item32 :=
   match pts, ws with
-  | p :: pt, w :: wt' => mkitem i (map f64_to_f32 p) w :: mk_items (N.succ i) pt wt'
+  | p :: pt, w :: wt' => mkitem i (map (cast32 clamp) p) w :: mk_items clamp (N.succ i) pt wt'
   | _, _ => []
   end.
 
 (* `rcb` (l.643-704) for f64 points given by their values and i64 weights.
    [pts]: the f64 coordinates (D per point). *)
-Record variant := mkvariant { v_old : bool; v_by_coord : bool; v_probe_max : bool; v_safe_mid : bool }.
+Record variant := mkvariant { v_old : bool; v_by_coord : bool; v_probe_max : bool; v_safe_mid : bool;
+                              v_clamp : bool }.
 
 Definition rcb (v : variant) (fuel : nat) (sched : N -> nat -> stree) (D k : nat)
            (tol : spec_float) (pts : list (list spec_float)) (ws : list Z) (p0 : list N)
@@ -511,12 +528,12 @@ Definition rcb (v : variant) (fuel : nat) (sched : N -> nat -> stree) (D k : nat
     match pts with
     | [] => Ok p0
     | _ =>
-      match bbox32 D 0 pts with
+      match bbox32 (v_clamp v) D 0 pts with
       | None => Panic 1
       | Some bb =>
         rcb_core spec_float flt fle (f32_mid (v_safe_mid v)) f32_sub f32_add f32_zero f32_inf (tol_test tol)
                  (v_old v) (v_by_coord v) (v_probe_max v)
-                 fuel sched D k (mk_items 0%N pts ws) (sumZ ws) bb p0
+                 fuel sched D k (mk_items (v_clamp v) 0%N pts ws) (sumZ ws) bb p0
       end
     end.
 
@@ -539,11 +556,12 @@ Fixpoint box_ok_from (a : nat) (bb : box spec_float) (its : list item32) : bool 
                           end) its
     && box_ok_from (S a) t its
   end.
-Definition box_ok32 (D : nat) (pts : list (list spec_float)) (ws : list Z) : bool :=
-  match bbox32 D 0 pts with
-  | Some bb => box_ok_from 0 bb (mk_items 0%N pts ws)
+Definition box_ok32c (clamp : bool) (D : nat) (pts : list (list spec_float)) (ws : list Z) : bool :=
+  match bbox32 clamp D 0 pts with
+  | Some bb => box_ok_from 0 bb (mk_items clamp 0%N pts ws)
   | None => false
   end.
+Definition box_ok32 := box_ok32c false.
 
 (* one cut search on a single axis, judged by check_split on the two sides
    the reordering produces (regression witnesses, Proofs/RcbRegress.v) *)
@@ -566,8 +584,8 @@ Definition split_check (v : variant) (fuel : nat) (tol : spec_float) (xs : list 
 
 (* checkers at the instance *)
 Definition check_bisect32 (D k : nat) (pts : list (list spec_float)) (ids : list N) : bool :=
-  check_bisect spec_float flt f32_valid D k (map (map f64_to_f32) pts) ids.
+  check_bisect spec_float flt f32_valid D k (map (map (cast32 true)) pts) ids.
 
 Definition check_balance32 (D k : nat) (tol : spec_float) (pts : list (list spec_float))
            (ws : list Z) (ids : list N) : bool :=
-  check_balance spec_float flt (tol_test tol) f32_valid D k (map (map f64_to_f32) pts) ws ids.
+  check_balance spec_float flt (tol_test tol) f32_valid D k (map (map (cast32 true)) pts) ws ids.
